@@ -117,3 +117,35 @@ pub mod emit {
 pub fn vx_control_worker_owner(info: &MinerInfo) -> (r: Vec<Address>)
     ensures r@.to_set() =~= info.control_addresses@.to_set().insert(info.worker).insert(info.owner)
 { info.control_addresses.iter().chain(&[info.worker, info.owner]).copied().collect() }
+
+// ======================= activation side (activate_new_sector_infos) =======================
+/// R17 helper: the number of pairs `a.iter().zip(b)` yields
+pub fn vx_zip_len(a: usize, b: usize) -> (r: usize) ensures r == (if a <= b { a } else { b }) { if a <= b { a } else { b } }
+pub type AmtError = AnyhowError;
+/// sectors.rs `Sectors`: the sector-info AMT (sector number -> SectorOnChainInfo) over the Array stub of prelude/ipld.rs
+pub struct Sectors<'db, BS: Blockstore> { pub amt: Array<SectorOnChainInfo, &'db BS> }
+/// the sector table of a miner state
+pub open spec fn sectors_tbl(s: State) -> Map<u64, SectorOnChainInfo> { array_decode::<SectorOnChainInfo>(s.sectors) }
+/// policy.rs qa_power_for_weight, daily_proof_fee; monies.rs initial_pledge_for_power: SOME amount, a deterministic function of the inputs
+pub uninterp spec fn qapw_spec(size: SectorSize, duration: ChainEpoch, verified_weight: int) -> int;
+#[verifier::external_body]
+pub fn qa_power_for_weight(size: SectorSize, duration: ChainEpoch, verified_weight: &DealWeight) -> (r: StoragePower)
+    ensures r@ == qapw_spec(size, duration, verified_weight@)
+{ unimplemented!() }
+#[verifier::external_body]
+pub fn daily_proof_fee(policy: &Policy, circulating_supply: &TokenAmount, qa_power: &StoragePower) -> (r: TokenAmount) { unimplemented!() }
+pub uninterp spec fn ip_spec(qa_power: int, baseline_power: int, reward: FilterEstimate, network_qa: FilterEstimate, circulating_supply: int, epochs_since_ramp_start: i64, ramp_duration_epochs: u64) -> int;
+#[verifier::external_body]
+pub fn initial_pledge_for_power(qa_power: &StoragePower, baseline_power: &StoragePower, reward_estimate: &FilterEstimate, network_qa_power_estimate: &FilterEstimate,
+        circulating_supply: &TokenAmount, epochs_since_ramp_start: i64, ramp_duration_epochs: u64) -> (r: TokenAmount)
+    ensures r@ == ip_spec(qa_power@, baseline_power@, *reward_estimate, *network_qa_power_estimate, circulating_supply@, epochs_since_ramp_start, ramp_duration_epochs)
+{ unimplemented!() }
+impl State {
+    /// state.rs assign_sectors_to_deadlines (deadline assignment, Deadline::add_sectors, ~70 lines of partition bookkeeping — C04's subject): the only
+    /// field of the miner state it writes is `deadlines` (through save_deadlines); every other use of `self` is a read
+    #[verifier::external_body]
+    pub fn assign_sectors_to_deadlines<BS: Blockstore>(&mut self, policy: &Policy, store: &BS, current_epoch: ChainEpoch, sectors: Vec<SectorOnChainInfo>,
+            partition_size: u64, sector_size: SectorSize) -> (r: anyhow::Result<()>)
+        ensures *final(self) == (State { deadlines: final(self).deadlines, ..*old(self) })
+    { unimplemented!() }
+}
